@@ -12,6 +12,8 @@
 //!           k<n>   capture `cx.waker().clone()` in waker slot n (0..=3)
 //!           W<n>   `wake_by_ref` on slot n      x<n>  drop slot n
 //!           g<n>   arm a destructor that wakes slot n when the body is dropped or finishes
+//!           m<k>   move call future k out of the body into a store that outlives every task (its waitable stays
+//!                  registered through the C ABI after the Rust futures are done; dropped at the end of the script)
 //!           r      `task.return` now (root body of a task; at most once; implicit at the end)
 //!   host    A<k>:<s>  D<k>   as in `script` (D delivers to the task that waits on the set)
 //!           U      deliver the pending stream/future-end event with the smallest handle (wakeup reads)
@@ -43,6 +45,7 @@ enum Instr {
     WDrop(usize),
     Guard(usize),
     Return,
+    Detach(usize),
 }
 
 #[derive(Clone, Copy, Debug)]
@@ -105,6 +108,7 @@ fn parse(line: &str) -> Option<Script> {
                 "W" => Instr::Wake(wk(arg)?),
                 "x" => Instr::WDrop(wk(arg)?),
                 "g" => Instr::Guard(wk(arg)?),
+                "m" => Instr::Detach(idx(arg)?),
                 _ => return None,
             });
         }
@@ -151,6 +155,8 @@ struct Shared {
 
 thread_local! {
     static SH: RefCell<Shared> = RefCell::new(Shared::default());
+    /// call futures moved out of their body (`m<k>`): they outlive the tasks
+    static DETACHED: RefCell<Vec<(usize, Fut)>> = RefCell::new(Vec::new());
 }
 
 fn wake_slot(n: usize, tok: &str) {
@@ -391,6 +397,13 @@ async fn body(j: usize, instrs: Vec<Instr>, root: bool) {
                 ev(&format!("arm{n}"));
                 loc.guards.push(WakeGuard(n));
             }
+            Instr::Detach(k) => match loc.slots[k].fut.take() {
+                None => ev(&format!("det{k}:none")),
+                Some(f) => {
+                    ev(&format!("det{k}"));
+                    DETACHED.with(|d| d.borrow_mut().push((k, f)));
+                }
+            },
             Instr::Return => match tc.0.take() {
                 Some(g) => {
                     ev("task.return");
@@ -661,6 +674,34 @@ fn run(s: &Script) {
     if r.is_err() {
         ev("panic");
     }
+    // detached call futures are dropped now, outside every task
+    let r3 = std::panic::catch_unwind(|| loop {
+        let next = DETACHED.with(|d| {
+            let mut d = d.borrow_mut();
+            if d.is_empty() {
+                None
+            } else {
+                Some(d.remove(0))
+            }
+        });
+        match next {
+            None => break,
+            Some((k, f)) => {
+                ev(&format!("detdrop{k}"));
+                drop(f);
+            }
+        }
+    });
+    if r3.is_err() {
+        ev("panic");
+        // whatever is left must not run destructors in a later script
+        DETACHED.with(|d| {
+            for x in d.borrow_mut().drain(..) {
+                std::mem::forget(x);
+            }
+        });
+    }
+    DETACHED.with(|d| *d.borrow_mut() = Vec::new());
     // wakers still captured are released now (they may hold the last reference to a task's state)
     let r2 = std::panic::catch_unwind(|| {
         for n in 0..NWAKERS {
@@ -672,7 +713,7 @@ fn run(s: &Script) {
     if r2.is_err() {
         ev("panic");
     }
-    if r.is_ok() && r2.is_ok() && !trapped() {
+    if r.is_ok() && r2.is_ok() && r3.is_ok() && !trapped() {
         let (sets, subs, ends, ctx) = host::HOST.with(|h| {
             let h = h.borrow();
             (h.sets.len(), h.subs.len(), h.ends.len(), h.ctx0)
